@@ -35,7 +35,7 @@ INSTANCES = {
     "jsonish": ['", "x": "', '"}, {"', "\\u0041", "</script>"],
     # everything str.splitlines() / a text-mode reader may take for a line break, followed by a visible character
     # path strings that are not in normalised form: a report stores the strings it was given, whatever they look like
-    "pathshape": ["./x", "a//b", "a/../b", "a/./b", "..", "a/", " a", "a "],
+    "pathshape": ["./x", "proj.git.git", "a//b", "lib.git", "a/../b", "a/./b", "..", "a/", " a", "a "],
     # longer than any line width a writer might want to keep: with blanks (places where a line could be folded), without, and much longer
     "long": [" ".join(["word"] * 40), "x" * 300, "My Project (copy 2)/" * 12 + "src", ("lorem ipsum " * 500).strip()],
     "linesep": ["a\u2028b", "x\u2029y", "p\x85q", "v\x0bw", "f\x0cg", "s\x1ct\x1du\x1ev"],
